@@ -132,6 +132,63 @@ def run(ctx):
             res.failures.append({"what": "decode(encode(subroutine)) != subroutine",
                                  "kf": "F1" if only_f1 else None,
                                  "input": {"fl": fname, "request": rq, "differs_at": bad[:5]}})
+    # -- stream B2: object histories — serialise, edit the subroutine in place, serialise again:
+    # the bytes must always be those of the CURRENT instruction sequence / app id
+    n_hist = 400 if ctx.thorough else 60
+    for _ in range(n_hist):
+        fname = rng.choice(["nv", "reids", "vanilla"])
+        pool = [c for c in H.flavour_classes(fname) if not (fname == "vanilla" and c.id == 41)]
+
+        def rnd():
+            c = rng.choice(pool)
+            fs = H.T.operand_fields(c)
+            return c(**{f.name: rng.choice(H.values_for(k, rng, 2)) for f, k in zip(fs, H.shape_of(c))})
+
+        sub = H.Subroutine(instructions=[rnd() for _ in range(rng.randrange(1, 6))], app_id=rng.randrange(65536))
+        steps = []
+        for _step in range(rng.randrange(2, 6)):
+            kind = rng.choice(["observe", "append", "replace_item", "set_field", "set_app", "pop", "len"])
+            steps.append(kind)
+            try:
+                if kind == "observe":
+                    bytes(sub)
+                elif kind == "len":
+                    len(sub)
+                    str(sub)
+                elif kind == "append":
+                    sub.instructions.append(rnd())
+                elif kind == "replace_item" and sub.instructions:
+                    sub.instructions[rng.randrange(len(sub.instructions))] = rnd()
+                elif kind == "pop" and len(sub.instructions) > 1:
+                    sub.instructions.pop(rng.randrange(len(sub.instructions)))
+                elif kind == "set_app":
+                    sub.app_id = rng.randrange(65536)
+                elif kind == "set_field" and sub.instructions:
+                    i = sub.instructions[rng.randrange(len(sub.instructions))]
+                    fs = H.T.operand_fields(type(i))
+                    if fs:
+                        k = rng.randrange(len(fs))
+                        setattr(i, fs[k].name, rng.choice(H.values_for(H.shape_of(type(i))[k], rng, 2)))
+            except Exception:
+                pass
+        res.evaluations += 1
+        res.count("history")
+        res.nontrivial.add(("hist", tuple(steps), len(sub.instructions)))
+        want = [H.instr_to_json(i) for i in sub.instructions]
+        try:
+            rb = list(bytes(sub))
+        except Exception:
+            rb = None
+        mo = ctx.driver.call({"op": "codec.encsub", "fl": fname, "v0": sub.netqasm_version[0],
+                              "v1": sub.netqasm_version[1], "app": sub.app_id, "is": want})
+        if mo.get("b") != rb:
+            res.disagreements.append({"stream": "codec.encsub-after-edits", "input": {"fl": fname, "steps": steps,
+                                                                                   "is": want}, "model": "…", "code": "…"})
+        rs = H.real_decode_sub(fname, rb) if rb is not None else None
+        if rs is None or list(rs.instructions) != list(sub.instructions) or rs.app_id != sub.app_id:
+            res.failures.append({"what": "after in-place edits the encoded bytes do not decode to the current subroutine",
+                                 "kf": None, "input": {"fl": fname, "steps": steps, "current": want,
+                                                       "decoded": [H.instr_to_json(i) for i in rs.instructions] if rs else None}})
     # -- stream C: malformed / arbitrary byte strings
     n_mal = 3000 if ctx.thorough else 300
     raws = []
